@@ -21,7 +21,8 @@ func c20(c *eng.Ctx, r *eng.Report) {
 		"R20.4 writer, by-id reader, iterator and remover derive the stake/account/status keys with the same Sha256 nesting depth (1/2/3); " +
 		"R20.5 a BeforeExecute implementation mutates state only through ProcessFee; " +
 		"R20.6 a record is rewritten read-modify-write — UpdateMiner(m, db, false), which writes stake, account and status together, is given the record just read from the registry — and RemoveMiner erases the four slots only on the `left == 0` edge. " +
-		"R20.7 the stake total and the proposer set used for leader election grow together, by the record's own stake, only for non-nil records whose status is normal. " +
+		"R20.7 the stake total and the proposer set used for leader election grow together, by the record's own stake, only for non-nil records whose status is normal and whose ApplyHeight has been reached, and the proposer count is the size of that same set (no second walk with its own filter). " +
+		"R20.8 what AddMiner/AddStake check is what they record: no field of the miner record (account, id, type, stake) is assigned between the uniqueness lookups and UpdateMiner. " +
 		"Not decided: the sums themselves; equality of the three lookup results as values."
 	r.Assume = []string{"miner records live in the storage of ValidatorDBAddress/ProposerDBAddress only"}
 	c20Layers(c, r)
@@ -32,6 +33,7 @@ func c20(c *eng.Ctx, r *eng.Report) {
 	c20Before(c, r)
 	c20Record(c, r)
 	c20Election(c, r)
+	c20CheckedIsRecorded(c, r)
 }
 
 func c20Layers(c *eng.Ctx, r *eng.Report) {
@@ -580,7 +582,7 @@ func c20Election(c *eng.Ctx, r *eng.Report) {
 			if !added {
 				why = "the total is not increased by the same record's stake where the member is recorded"
 			}
-			normal, nonNil := false, false
+			normal, nonNil, started := false, false, false
 			for _, cd := range eng.EdgeConds(b) {
 				m, isM := cd.Cmp()
 				if !isM {
@@ -598,14 +600,71 @@ func c20Election(c *eng.Ctx, r *eng.Report) {
 				if m.Op == token.NEQ && (eng.IsNilConst(m.X) || eng.IsNilConst(m.Y)) {
 					nonNil = true
 				}
+				// height >= record.ApplyHeight
+				if strings.HasSuffix(eng.Desc(m.Y), ".ApplyHeight") && eng.Desc(m.X) == "height" && m.Op == token.GEQ {
+					started = true
+				}
+				if strings.HasSuffix(eng.Desc(m.X), ".ApplyHeight") && eng.Desc(m.Y) == "height" && m.Op == token.LEQ {
+					started = true
+				}
 			}
-			if !normal || !nonNil {
-				why = fmt.Sprintf("a record is counted without the tests record != nil (%v) and Status == MinerStatusNormal (%v)", nonNil, normal)
+			if !normal || !nonNil || !started {
+				why = fmt.Sprintf("a record is counted without the tests record != nil (%v), Status == MinerStatusNormal (%v) and height >= ApplyHeight (%v)", nonNil, normal, started)
 			}
 		}
 	}
 	if n != 1 && why == "" {
 		why = fmt.Sprintf("%d writes to the member detail map (one expected)", n)
 	}
-	r.Check(why == "", rule, "GetProposerTotalStakeWithDetail:active-only", c.Pos(fn.Pos()), "total and member set grow together, by the record's stake, only for non-nil records with Status == MinerStatusNormal", "GetProposerTotalStakeWithDetail: "+why+": the stake total and proposer count used for leader election stop being the sum over active records")
+	// one definition of the active set: the proposer count is the size of the very set the total was summed over
+	if cnt := c.Func("service", "(*MinerManager).GetProposerTotalStake"); r.Anchor(cnt != nil, rule, "MinerManager.GetProposerTotalStake") {
+		bad := ""
+		nret := 0
+		for _, re := range eng.Returns(cnt) {
+			v := re.Incoming(0)
+			if k, isK := eng.ConstInt(v); isK && k == 0 {
+				continue // no state for that hash
+			}
+			nret++
+			d := eng.Desc(v)
+			if !(strings.Contains(d, "builtin:len(") && strings.Contains(d, "GetProposerTotalStakeWithDetail(") && strings.Contains(d, "#1")) {
+				bad = d
+			}
+		}
+		r.Check(bad == "" && nret >= 1, rule, "GetProposerTotalStake:same-set", c.Pos(cnt.Pos()), "count = len(member set of GetProposerTotalStakeWithDetail)", "GetProposerTotalStake returns "+bad+" instead of the size of the member set GetProposerTotalStakeWithDetail summed the total over: a second walk of the registry has its own idea of who is active (e.g. it forgets the ApplyHeight window), so the proposer count used by every VRF check no longer matches the records behind the total stake")
+	}
+	r.Check(why == "", rule, "GetProposerTotalStakeWithDetail:active-only", c.Pos(fn.Pos()), "total and member set grow together, by the record's stake, only for non-nil records with Status == MinerStatusNormal whose ApplyHeight has been reached", "GetProposerTotalStakeWithDetail: "+why+": the stake total and proposer count used for leader election stop being the sum over active records")
+}
+
+// c20CheckedIsRecorded: AddMiner looks the id and the account up in both
+// registries and then records the miner. A default filled in (or any field
+// changed) after the lookups is recorded unchecked.
+func c20CheckedIsRecorded(c *eng.Ctx, r *eng.Report) {
+	const rule = "R20.8"
+	r.Min(rule, 1)
+	for _, name := range []string{"(*MinerManager).AddMiner"} {
+		fn := c.Func("service", name)
+		if !r.Anchor(fn != nil, rule, name) {
+			continue
+		}
+		var lookups []*ssa.Call
+		lookups = append(lookups, callsNamed(fn, ".GetMinerIdByAccount")...)
+		lookups = append(lookups, callsNamed(fn, "(*service.MinerManager).GetMiner")...)
+		upd := callsNamed(fn, ".UpdateMiner")
+		if len(lookups) < 2 || len(upd) != 1 {
+			r.Fail(rule, "checked-is-recorded:"+name, c.Pos(fn.Pos()), fmt.Sprintf("%s: uniqueness lookups=%d UpdateMiner=%d (2 and 1 expected): the registration sequence changed and must be re-reviewed", name, len(lookups), len(upd)))
+			continue
+		}
+		bad := ""
+		for _, f := range []string{"Account", "Id", "Type", "Stake"} {
+			for _, st := range eng.FieldStores(fn, "middleware/types.Miner", f) {
+				for _, lk := range lookups {
+					if eng.Reaches(lk, st) {
+						bad = "Miner." + f + " is assigned at " + c.Pos(st.Pos()) + ", after the lookup at " + c.Pos(lk.Pos())
+					}
+				}
+			}
+		}
+		r.Check(bad == "", rule, "checked-is-recorded:"+name, c.Pos(fn.Pos()), "no field of the record is assigned after the uniqueness lookups", name+": "+bad+" — the value that is recorded is not the value that was looked up, so an application that leaves the field to its default slips past the `one miner per account / id` test (an account that already controls a miner registers a second one)")
+	}
 }
